@@ -129,3 +129,20 @@ PROPS["C07"] = {
     "assumptions": ["Authentic AEAD: anything that opens under (nonce, additional data) was sealed by the sender under exactly those (hypothesis of prefix_delivery)", "fewer than 2^64 records per direction (the code panics instead of wrapping)"],
     "not_proved": ["decrypt_encrypt for the CBC+HMAC-SM3 suite as a theorem", "extractPadding (constant-time bit tricks) = its specification as a theorem (T1 of the design; compared for all pad lengths 0..255 by expad)", "prefix_delivery instantiated for MAC-then-encrypt CBC (the abstract theorem is stated for AEAD-shaped protection)"],
 }
+
+PROPS["C10"] = {
+    "modules": ["Gmsm.Props.C10"],
+    "theorems": [
+        "Props.C10.mem_findVerifiedParents", "Props.C10.buildChains_sound", "Props.C10.verify_sound",
+        "Props.C10.buildChains_budget", "Props.C10.eku_unrestricted",
+    ],
+    "gen_items": [],
+    "level": "proof",
+    "claim": "Lean 4 model of Verify/buildChains/isValid/findVerifiedParents/CheckSignatureFrom/VerifyHostname/checkChainForKeyUsage over abstract certificates (exactly the fields Verify reads; the signature relation is given by key identities). Proved for all pools, signature relations, options and budgets: every returned chain starts at the leaf, ends in a root, passes only through intermediates, every link satisfies CheckSignatureFrom, every certificate passes isValid at its position (name chaining, validity at `now`, permitted DNS domains, CA flag, path length), nothing repeats; the leaf has no unhandled critical extension, is valid, matches the host name and the usages; the search is structurally terminating within the code's own work budget. Exactness (completeness, order independence) is decided by comparing the real Verify with the model on generated PKIs for which real certificates are issued.",
+    "note": "Trusted: Lean kernel; the hand model is tied to x509/verify.go by the chain correspondence (real SM2 certificates issued per generated topology: up to 3 roots, 4 intermediates with cross-certificates and loops, perturbed validity/CA/pathlen/keyUsage/constraints/signature/EKU/SKI-AKI, shuffled pool order, host names incl. case, trailing dot, wildcards, IPs, brackets); ParseCertificate/CreateCertificate and net.ParseIP are outside the model; completeness is validated, not proved.",
+    "trusted_base": [
+        "Model.X509 mirrors verify.go:178-568 and cert_pool.go findVerifiedParents/contains; tie = `chain` correspondence comparing the sorted set of returned chains (as certificate identities) and the error class",
+    ],
+    "assumptions": ["SM2 signature verification behaves as the relation signer = parent key (C01)"],
+    "not_proved": ["verify_complete (every valid simple path within the budget is returned) as a theorem", "hostname_match_spec as a standalone characterisation (String functions do not reduce in the kernel; covered by correspondence)"],
+}
